@@ -49,6 +49,7 @@ type Op struct {
 	Name       string   `json:"name"`
 	Type       string   `json:"type"`
 	Legs       []Leg    `json:"legs"`
+	FeeOpt     uint64   `json:"feeopt"`
 }
 
 // Leg is one Endpoint.crossChainCall of a multi-send transaction (op send_multi): the sender's multicall contract
@@ -57,6 +58,7 @@ type Leg struct {
 	Dst     int    `json:"dst"`     // 0..2 peer, -1 unknown chain, -2 the TSS-secured name
 	Variant string `json:"variant"` // base | erc20 | call
 	Amount  uint64 `json:"amount"`
+	FeeOpt  uint64 `json:"feeopt"`
 }
 
 type kv struct {
@@ -100,7 +102,7 @@ func (o Op) MarshalJSON() ([]byte, error) {
 	f := []kv{{"k", o.K}, {"chain", o.Chain}}
 	switch o.K {
 	case "send":
-		f = append(f, kv{"dst", o.Dst}, kv{"variant", o.Variant}, kv{"amount", o.Amount}, kv{"fee", o.Fee}, kv{"commit", o.Commit})
+		f = append(f, kv{"dst", o.Dst}, kv{"variant", o.Variant}, kv{"amount", o.Amount}, kv{"fee", o.Fee}, kv{"feeopt", o.FeeOpt}, kv{"commit", o.Commit})
 	case "send_multi":
 		legs := o.Legs
 		if legs == nil {
@@ -140,6 +142,8 @@ func (o Op) MarshalJSON() ([]byte, error) {
 		f = append(f, kv{"relayer", o.Relayer}, kv{"chains", ints(o.Chains)})
 	case "create_client":
 		f = append(f, kv{"name", o.Name}, kv{"type", o.Type})
+	case "toggle_client", "upgrade_client":
+		f = append(f, kv{"peer", o.Peer}, kv{"type", o.Type}, kv{"commit", o.Commit})
 	}
 	return orderedJSON(f)
 }
@@ -197,6 +201,8 @@ func emptyCb() CbJ { return CbJ{Sends: []SendJ{}, Fail: false, Ret: nil} }
 type ClientJ struct {
 	Name string `json:"name"`
 	Tss  bool   `json:"tss"`
+	// Cons: heights of the consensus states stored for this client at the start of the history
+	Cons [][2]string `json:"cons"`
 }
 
 type RelayerJ struct {
@@ -231,6 +237,12 @@ type Obs struct {
 	Bal       []string    `json:"bal"`
 	FamHash   FamHash     `json:"famhash"`
 	Err       string      `json:"err"`
+	// Cons: consensus-state heights this step wrote for the client its act names (update: the new heights; create /
+	// toggle / upgrade: the latest height of the NEW client state, nothing for TSS) — what the present client instance
+	// accepted itself, NOT what happens to be in the store
+	Cons [][2]string `json:"cons"`
+	// Wack: (code, fee option) of the acknowledgement bytes an accepted receive wrote (raw go-ethereum ABI), or null
+	Wack *[2]string `json:"wack"`
 }
 
 type Step struct {
@@ -302,7 +314,7 @@ type ActRegRelayer struct {
 }
 
 type ActCreateClient struct {
-	T    string `json:"t"`
+	T    string `json:"t"` // create_client | toggle_client | upgrade_client
 	Name string `json:"name"`
 	Tss  bool   `json:"tss"`
 }
